@@ -1,4 +1,5 @@
 import CwPlus.Lemmas.Cw3Flex
+import CwPlus.Lemmas.Cw3StatusTotal
 /-!
 # C15 — cw3-flex-multisig proposal deposits
 
@@ -370,6 +371,262 @@ theorem failed_deposit_recoverable_partial {s : State} {g : Cw4Group.State} {sel
   refine ⟨{ s with core := { s.core with proposals := s.core.proposals.set id { p with status := .rejected } } }, ?_⟩
   simp [Cw3Flex.execute, execClose, Cw3Core.close, hl, hopen, hcs, hnp, hexp, hd, hr, bind, Except.bind, check, pure, Except.pure]
 
+/-- **Clause 6 for reachable worlds, without the `current_status` hypothesis.**  In every reachable world, with
+refunds enabled, the deposit of a proposal that is stored `Open`, has expired and whose tally fits `u64` (always the
+case outside the same-block finding D3: `C06Flex.flex_tally_le_total`) is recoverable at once, one way or the other:
+either `Close` — by anyone, with any funds — returns exactly the refund to the proposer, or the proposal is Passed at
+that block and `Execute` by any authorised sender returns the refund first, followed by the proposal's messages.
+(`current_status` cannot fail here: `reachable_statusInv`.) -/
+theorem failed_deposit_recoverable_reachable {ext : Ext} {fuel : Nat} {w : World} (hr : Reachable ext fuel w)
+    {id : Nat} {p : Proposal} {d : Deposit} {blk : Block}
+    (hp : w.flex.core.proposals.get? id = some p) (hopen : p.status = .open)
+    (hexp : p.expires.isExpired blk = true) (hfit : p.Fits) (hd : p.deposit = some d) (hrf : d.refundFailed = true)
+    (g : Cw4Group.State) (self : Addr) (funds : List Coin) :
+    (∀ snd, ∃ s', execute w.flex g self blk snd funds (.close id) = .ok (s', [refundMsg d p.proposer])) ∨
+    (p.currentStatus blk = .ok .passed ∧ ∀ snd, authorize w.flex.cfg g snd = true →
+      ∃ s', execute w.flex g self blk snd funds (.execute id) = .ok (s', refundMsg d p.proposer :: p.msgs.map Out.msg)) := by
+  obtain ⟨st, hcs⟩ := reachable_statusInv hr id p hp hfit blk
+  by_cases hst : st = .passed
+  · subst hst
+    right
+    refine ⟨hcs, fun snd ha => ?_⟩
+    have hl : load w.flex.core id = .ok p := by simp [hp]
+    refine ⟨{ w.flex with core := { w.flex.core with proposals := w.flex.core.proposals.set id { p with status := .executed } } }, ?_⟩
+    simp [Cw3Flex.execute, execExecute, Cw3Core.execute, hl, hcs, ha, hd, bind, Except.bind, check, pure, Except.pure]
+  · left
+    intro snd
+    exact failed_deposit_recoverable_partial hp hopen hexp hcs hst hd hrf
+
+/-! ## (6') the exact extent of D6: a proposal stored `Rejected` and not yet handled is stuck for ever -/
+
+/-- A proposal stored `Rejected` admits neither `Execute` nor `Close`, whoever calls, at any block. -/
+theorem rejected_refuses {s : State} {id : Nat} {p : Proposal} (hp : s.core.proposals.get? id = some p)
+    (hs : p.status = .rejected) (g : Cw4Group.State) (self : Addr) (blk : Block) (snd : Addr) (funds : List Coin) :
+    (execute s g self blk snd funds (.execute id)).isOk = false ∧
+    (execute s g self blk snd funds (.close id)).isOk = false := by
+  constructor
+  · cases he : execute s g self blk snd funds (.execute id) with
+    | error e => rfl
+    | ok r =>
+      obtain ⟨s', out⟩ := r
+      obtain ⟨_, hc⟩ := execute_cases he
+      rcases hc with ⟨_, _, _, _, _, _, _, hm, _⟩ | ⟨_, _, hm, _⟩ | ⟨id0, p1, msgs, hm, hpp, hex, _⟩ | ⟨_, _, hm, _⟩ | ⟨hm, _⟩ <;>
+        cases hm
+      obtain ⟨p0, hp0, hst, _⟩ := execute_spec hex
+      rw [hp] at hp0; cases hp0
+      exact absurd hs (passed_not_final hst).2
+  · cases he : execute s g self blk snd funds (.close id) with
+    | error e => rfl
+    | ok r =>
+      obtain ⟨s', out⟩ := r
+      obtain ⟨_, hc⟩ := execute_cases he
+      rcases hc with ⟨_, _, _, _, _, _, _, hm, _⟩ | ⟨_, _, hm, _⟩ | ⟨_, _, _, hm, _⟩ | ⟨id0, p1, hm, hpp, hcl, _⟩ | ⟨hm, _⟩ <;>
+        cases hm
+      obtain ⟨p0, st, hp0, _, h2', _⟩ := close_spec hcl
+      rw [hp] at hp0; cases hp0
+      exact absurd hs h2'
+
+/-- World invariant behind `stored_rejected_never_refunded`. -/
+def StuckInv (id : Nat) (w : World) : Prop :=
+  Inv w.flex ∧ (∃ p, w.flex.core.proposals.get? id = some p ∧ p.status = .rejected) ∧ handled w.log id = 0
+
+theorem stuck_flex {id : Nat} {w : World} {g : Cw4Group.State} {self : Addr} {blk : Block} {snd : Addr} {funds : List Coin}
+    {em : ExecMsg} {s' : State} {out : List Out}
+    (hq : StuckInv id w) (he : execute w.flex g self blk snd funds em = .ok (s', out)) :
+    StuckInv id { w with flex := s', log := w.log ++ [eventOf w.flex snd em] } := by
+  obtain ⟨hi, ⟨p, hp, hs⟩, h0⟩ := hq
+  have hl := execute_later hi he
+  refine ⟨execute_inv hi he, ?_, ?_⟩
+  · obtain ⟨p', hp', _, hedge⟩ := hl.props id p hp
+    refine ⟨p', hp', ?_⟩
+    rw [hs] at hedge
+    cases hs' : p'.status <;> simp_all [edge]
+  · rw [handled_append, h0]
+    have hno : ¬ (eventOf w.flex snd em = .executed id ∨ eventOf w.flex snd em = .closed id) := by
+      have href := rejected_refuses hp hs g self blk snd funds
+      rintro (h | h)
+      · have : em = .execute id := by cases em <;> simp [eventOf] at h; subst h; rfl
+        subst this; rw [he] at href; exact absurd href.1 (by simp [Res.isOk])
+      · have : em = .close id := by cases em <;> simp [eventOf] at h; subst h; rfl
+        subst this; rw [he] at href; exact absurd href.2 (by simp [Res.isOk])
+    simp [hno]
+
+/-- **D6 as a theorem: the stuck set is exactly "stored `Rejected` and never handled".**  In every reachable world, a
+proposal that is stored `Rejected` and has no `Execute`/`Close` in the committed history (so its deposit was never
+refunded — `refund_only_to_proposer`) stays that way over EVERY continuation of the history — any transactions on the
+multisig, the group, the token, nested dispatches, any blocks: the count of handled calls stays 0, the proposal stays
+stored `Rejected`, and in the resulting world `Execute` and `Close` of it are refused for every sender, group state,
+funds and block.  With `refund_failed_proposals = true` this is the open known finding; together with
+`failed_deposit_recoverable_reachable` (stored `Open` at expiry ⇒ recoverable) it characterises which failed proposals
+lose their deposit: those voted down (or created expired-and-rejected) BEFORE they expire. -/
+theorem stored_rejected_never_refunded {ext : Ext} {fuel : Nat} {w : World} (hr : Reachable ext fuel w) {id : Nat}
+    {p : Proposal} (hp : w.flex.core.proposals.get? id = some p) (hs : p.status = .rejected)
+    (h0 : handled w.log id = 0) (ops : List Op) :
+    handled (run ext fuel w ops).log id = 0 ∧
+    (∃ p', (run ext fuel w ops).flex.core.proposals.get? id = some p' ∧ p'.status = .rejected ∧ p'.deposit = p.deposit ∧
+      p'.proposer = p.proposer) ∧
+    ∀ g self blk snd funds,
+      (execute (run ext fuel w ops).flex g self blk snd funds (.execute id)).isOk = false ∧
+      (execute (run ext fuel w ops).flex g self blk snd funds (.close id)).isOk = false := by
+  have hq : StuckInv id (run ext fuel w ops) := by
+    refine run_inv ext (StuckInv id) fuel ?_ ops w ⟨reachable_inv hr, ⟨p, hp, hs⟩, h0⟩
+    intro w op hq
+    refine step_inv ext (StuckInv id) ?_ ?_ (fun w b h => h) (fun w t h => h) fuel w op hq
+    · intro blk w snd funds em s' out hq he; exact stuck_flex hq he
+    · intro blk w snd m g' outs hq _
+      refine ⟨hq.1, hq.2.1, ?_⟩
+      have := hq.2.2
+      simpa [handled_append] using this
+  obtain ⟨_, ⟨p', hp', hs'⟩, h0'⟩ := hq
+  have hl := run_rel ext (fun s s' => Later s.core s'.core) (fun s => later_refl _) (fun _ _ _ h1 h2 => later_trans h1 h2)
+    (fun g self blk s snd funds m s' out hi h => execute_later hi h) fuel ops w (reachable_inv hr)
+  obtain ⟨p'', hp'', hf, _⟩ := hl.props id p hp
+  rw [hp'] at hp''; cases hp''
+  refine ⟨h0', ⟨p', hp', hs', ?_, ?_⟩, fun g self blk snd funds => rejected_refuses hp' hs' g self blk snd funds⟩
+  · simp only [Proposal.fixedPart, Proposal.mk.injEq] at hf; exact hf.2.2.2.2.2.2.2.2.2.2
+  · simp only [Proposal.fixedPart, Proposal.mk.injEq] at hf; exact hf.2.2.2.2.2.2.2.2.2.1
+
+/-! ## (2'/4') the refund at transaction level: the transfer to the proposer happened in the committed transaction -/
+
+/-- Dispatching a native refund message: the bank send from the multisig to the depositor succeeded, then the rest is
+dispatched. -/
+theorem dispatch_refund_native {ext : Ext} {fuel : Nat} {w w' : World} {blk : Block} {d : Deposit} {a : Addr}
+    {rest : List Out} (hn : d.cw20 = false) (h : dispatch ext fuel w blk (refundMsg d a :: rest) = .ok w') :
+    ∃ fuel' b, fuel = fuel' + 1 ∧ Cw3Fixed.bankSend w.bank w.self a d.amount d.denom = .ok b ∧
+      dispatch ext fuel' { w with bank := b } blk rest = .ok w' := by
+  cases fuel with
+  | zero => simp [dispatch] at h
+  | succ fuel =>
+    simp only [refundMsg, hn, Bool.false_eq_true, if_false, dispatch, Res.bind_ok] at h
+    obtain ⟨w1, ⟨b, hb, hw1⟩, h2⟩ := h
+    simp at hw1; subst hw1
+    exact ⟨fuel, b, rfl, hb, h2⟩
+
+/-- Dispatching a cw20 refund message: the deposit token is the token contract of the world and its
+`Transfer { recipient: depositor, amount }` sent by the multisig succeeded, then the rest is dispatched. -/
+theorem dispatch_refund_cw20 {ext : Ext} {fuel : Nat} {w w' : World} {blk : Block} {d : Deposit} {a : Addr}
+    {rest : List Out} (hc : d.cw20 = true) (h : dispatch ext fuel w blk (refundMsg d a :: rest) = .ok w') :
+    ∃ fuel' t, fuel = fuel' + 1 ∧ d.denom = w.tokenAddr ∧
+      Cw20.execute w.token blk w.self (.transfer ⟨true, a⟩ d.amount) = .ok (t, []) ∧
+      dispatch ext fuel' { w with token := t } blk rest = .ok w' := by
+  cases fuel with
+  | zero => simp [dispatch] at h
+  | succ fuel =>
+    simp only [refundMsg, hc, if_true, dispatch, Res.bind_ok] at h
+    obtain ⟨w1, h1, h2⟩ := h
+    simp [tokenCall] at h1
+    obtain ⟨htok, t', out', hex, hemp, rfl⟩ := h1
+    subst hemp
+    exact ⟨fuel, t', rfl, htok, hex, h2⟩
+
+/-- **Executed ⇒ refunded, transaction level, native deposit** (mirror of `propose_native_tx`).  A committed `Execute`
+transaction of a proposal with a native deposit: after the attached funds moved, the multisig paid exactly the
+deposit coin to the proposer (the bank send succeeded — otherwise the whole transaction would have failed), and only
+then the proposal's own messages were dispatched, in the world with that payment made. -/
+theorem execute_native_tx {ext : Ext} {fuel : Nat} {w w' : World} {blk : Block} {snd : Addr} {funds : List Coin}
+    {id : Nat} {p : Proposal} {d : Deposit}
+    (hp : w.flex.core.proposals.get? id = some p) (hd : p.deposit = some d) (hn : d.cw20 = false)
+    (h : tx ext fuel w blk (.flex snd funds (.execute id)) = .ok w') :
+    ∃ b0 b1 s' fuel', moveFunds w.bank snd w.self funds = .ok b0 ∧
+      Cw3Fixed.bankSend b0 w.self p.proposer d.amount d.denom = .ok b1 ∧ fuel = fuel' + 1 ∧
+      dispatch ext fuel' { w with bank := b1, flex := s', log := w.log ++ [.executed id] } blk (p.msgs.map Out.msg) = .ok w' := by
+  simp only [tx, Res.bind_ok] at h
+  obtain ⟨b0, hb0, ⟨s', out⟩, he, hdisp⟩ := h
+  obtain ⟨hout, _⟩ := executed_always_refunded he hp hd
+  subst hout
+  obtain ⟨fuel', b1, hf, hb1, hrest⟩ := dispatch_refund_native hn hdisp
+  exact ⟨b0, b1, s', fuel', hb0, hb1, hf, hrest⟩
+
+/-- **Executed ⇒ refunded, transaction level, cw20 deposit.**  A committed `Execute` transaction of a proposal with a
+cw20 deposit: the deposit token is the world's token contract, its `Transfer { recipient: proposer, amount }` sent by
+the multisig succeeded, and only then the proposal's messages were dispatched. -/
+theorem execute_cw20_tx {ext : Ext} {fuel : Nat} {w w' : World} {blk : Block} {snd : Addr} {funds : List Coin}
+    {id : Nat} {p : Proposal} {d : Deposit}
+    (hp : w.flex.core.proposals.get? id = some p) (hd : p.deposit = some d) (hc : d.cw20 = true)
+    (h : tx ext fuel w blk (.flex snd funds (.execute id)) = .ok w') :
+    d.denom = w.tokenAddr ∧
+    ∃ b0 t s' fuel', moveFunds w.bank snd w.self funds = .ok b0 ∧
+      Cw20.execute w.token blk w.self (.transfer ⟨true, p.proposer⟩ d.amount) = .ok (t, []) ∧ fuel = fuel' + 1 ∧
+      dispatch ext fuel' { w with bank := b0, token := t, flex := s', log := w.log ++ [.executed id] } blk
+        (p.msgs.map Out.msg) = .ok w' := by
+  simp only [tx, Res.bind_ok] at h
+  obtain ⟨b0, hb0, ⟨s', out⟩, he, hdisp⟩ := h
+  obtain ⟨hout, _⟩ := executed_always_refunded he hp hd
+  subst hout
+  obtain ⟨fuel', t, hf, htok, hex, hrest⟩ := dispatch_refund_cw20 hc hdisp
+  exact ⟨htok, b0, t, s', fuel', hb0, hex, hf, hrest⟩
+
+/-- **Closed with refunds enabled ⇒ refunded, transaction level.**  A committed `Close` transaction of a proposal whose
+deposit has `refund_failed_proposals = true`: the refund to the proposer — bank send of the deposit coin, resp. the
+token's `Transfer` — succeeded, and nothing else was dispatched: the new world differs from the old one only by the
+attached funds, that payment, the proposal's stored status and the ghost log. -/
+theorem close_refund_tx {ext : Ext} {fuel : Nat} {w w' : World} {blk : Block} {snd : Addr} {funds : List Coin}
+    {id : Nat} {p : Proposal} {d : Deposit}
+    (hp : w.flex.core.proposals.get? id = some p) (hd : p.deposit = some d) (hrf : d.refundFailed = true)
+    (h : tx ext fuel w blk (.flex snd funds (.close id)) = .ok w') :
+    ∃ b0 s', moveFunds w.bank snd w.self funds = .ok b0 ∧
+      if d.cw20 then
+        d.denom = w.tokenAddr ∧ ∃ t, Cw20.execute w.token blk w.self (.transfer ⟨true, p.proposer⟩ d.amount) = .ok (t, []) ∧
+          w' = { w with bank := b0, token := t, flex := s', log := w.log ++ [.closed id] }
+      else
+        ∃ b1, Cw3Fixed.bankSend b0 w.self p.proposer d.amount d.denom = .ok b1 ∧
+          w' = { w with bank := b1, flex := s', log := w.log ++ [.closed id] } := by
+  simp only [tx, Res.bind_ok] at h
+  obtain ⟨b0, hb0, ⟨s', out⟩, he, hdisp⟩ := h
+  have hout : out = [refundMsg d p.proposer] := by
+    obtain ⟨_, hc⟩ := execute_cases he
+    rcases hc with ⟨_, _, _, _, _, _, _, hm, _⟩ | ⟨_, _, hm, _⟩ | ⟨_, _, _, hm, _⟩ | ⟨id0, p1, hm, hpp, _, hout⟩ | ⟨hm, _⟩ <;>
+      cases hm
+    rw [hp] at hpp; cases hpp
+    simp [hout, hd, hrf]
+  subst hout
+  refine ⟨b0, s', hb0, ?_⟩
+  by_cases hc : d.cw20 = true
+  · simp only [hc, if_true]
+    obtain ⟨fuel', t, _, htok, hex, hrest⟩ := dispatch_refund_cw20 hc hdisp
+    refine ⟨htok, t, hex, ?_⟩
+    cases fuel' <;> simp [dispatch] at hrest <;> exact hrest.symm
+  · have hn : d.cw20 = false := by simpa using hc
+    simp only [hn, Bool.false_eq_true, if_false]
+    obtain ⟨fuel', b1, _, hb1, hrest⟩ := dispatch_refund_native hn hdisp
+    refine ⟨b1, hb1, ?_⟩
+    cases fuel' <;> simp [dispatch] at hrest <;> exact hrest.symm
+
+/-- **At most one refund message per handler call**: whatever a handler returns contains at most one payout. With
+`refund_at_most_once` (at most one `Execute`-or-`Close` per proposal per history) and `refund_only_to_proposer` (only
+those calls pay out, and only that proposal's refund) this is literally "at most one refund message per proposal per
+history". -/
+theorem payouts_le_one {s s' : State} {g : Cw4Group.State} {self : Addr} {blk : Block} {snd : Addr}
+    {funds : List Coin} {m : ExecMsg} {out : List Out} (h : execute s g self blk snd funds m = .ok (s', out)) :
+    (out.filter isPayout).length ≤ 1 := by
+  obtain ⟨_, hc⟩ := execute_cases h
+  rcases hc with ⟨t, d, msgs, latest, w, total, id, _, _, _, _, hout, _⟩ | ⟨id, v, _, hout, _⟩ |
+    ⟨id, p, msgs, hm, hpp, _, hout⟩ | ⟨id, p, hm, hpp, _, hout⟩ | ⟨_, _, _, hout⟩
+  · subst hout
+    cases hd : s.cfg.deposit with
+    | none => simp
+    | some dep =>
+      have : (takeDeposit dep snd self).filter isPayout = [] :=
+        List.filter_eq_nil_iff.mpr (fun o ho => by simp [takeDeposit_no_payout dep snd self o ho])
+      simp [this]
+  · subst hout; simp
+  · subst hout
+    have hmsgs : (msgs.map Out.msg).filter isPayout = [] :=
+      List.filter_eq_nil_iff.mpr (fun o ho => by simp at ho; obtain ⟨x, _, rfl⟩ := ho; simp [isPayout])
+    rw [List.filter_append, hmsgs]
+    cases hd : p.deposit with
+    | none => simp
+    | some dep => simp [refundMsg_isPayout]
+  · subst hout
+    cases hd : p.deposit with
+    | none => simp
+    | some dep =>
+      simp only
+      split
+      · simp [refundMsg_isPayout]
+      · simp
+  · subst hout; simp
+
 /-! ## the unguarded clause 6 is false: D6 -/
 
 namespace Cex
@@ -426,6 +683,98 @@ theorem C15_counterexample :
 example :
     ((Cw3Flex.execute (run Cex.noExt 10 Cex.world0 (Cex.ops.take 2)).flex Cex.group0 "ms" ⟨20, 0⟩ "x" [] (.close 1)).toOption.map (·.2))
       = some [Out.bank "a" 5 "ucosm"] := by
+  decide
+
+/-- Non-vacuity of `stored_rejected_never_refunded`: `Cex.final` is reachable, proposal 1 is stored `Rejected` and was
+never handled — so by the theorem no continuation ever refunds it. -/
+example : Reachable Cex.noExt 10 Cex.final ∧
+    ((Cex.final.flex.core.proposals.get? 1).map (·.status)) = some .rejected ∧ handled Cex.final.log 1 = 0 :=
+  ⟨⟨Cex.inst, Cex.flex0, Cex.group0, Cex.token0, _, "ms", "grp", "tok", 5, Cex.ops, rfl, rfl⟩, by decide, by decide⟩
+
+/-- Non-vacuity of `failed_deposit_recoverable_reachable` and `close_refund_tx` (native): after a single `no` vote the
+proposal is stored `Open`, fits `u64`, expires at height 15; the `Close` transaction at block 20 commits and pays the
+5ucosm back to `a`. -/
+example :
+    let w := run Cex.noExt 10 Cex.world0 (Cex.ops.take 2)
+    ((w.flex.core.proposals.get? 1).map fun p => (p.status, p.expires.isExpired ⟨20, 0⟩, p.votes)) = some (.open, true, ⟨1, 2, 0, 0⟩) ∧
+    ((tx Cex.noExt 10 w ⟨20, 0⟩ (.flex "x" [] (.close 1))).toOption.map fun w' => (balance w' "a" "ucosm", balance w' "ms" "ucosm"))
+      = some (20, 0) := by
+  decide
+
+namespace Cex20
+
+/-- a cw20 deposit token in which `a` holds 20 -/
+def token0 : Cw20.State :=
+  { supply := 20, mint := none, balances := [("a", 20)], allow := [], allowSp := [], version := ⟨"crates.io:cw20-base", 2, 0, 0⟩ }
+
+/-- deposit: 5 units of the cw20 token at `tok`, refunds of failed proposals enabled -/
+def inst : InstMsg :=
+  { group := ⟨true, "grp"⟩, threshold := .absoluteCount 3, maxVotingPeriod := .height 5, executor := none,
+    deposit := some ⟨5, "tok", true, true, true⟩ }
+
+def flex0 : State := match instantiate inst (some Cex.group0) with | .ok s => s | .error _ => default
+
+def world0 : World := World.init flex0 Cex.group0 token0 [] "ms" "grp" "tok" 5
+
+/-- `a` grants the multisig an allowance of 5, proposes (the deposit is pulled by `TransferFrom`), `b` votes yes
+(1 + 2 = 3: Passed), an outsider executes (the deposit goes back by `Transfer`). -/
+def ops : List Op :=
+  [⟨⟨10, 0⟩, .token "a" (.increaseAllowance ⟨true, "ms"⟩ 5 none)⟩,
+   ⟨⟨10, 0⟩, .flex "a" [] (.propose "t" "d" [] none)⟩,
+   ⟨⟨11, 0⟩, .flex "b" [] (.vote 1 .yes)⟩,
+   ⟨⟨12, 0⟩, .flex "x" [] (.execute 1)⟩]
+
+/-- the same deposit with `refund_failed_proposals = false` -/
+def instNoRefund : InstMsg := { inst with deposit := some ⟨5, "tok", true, false, true⟩ }
+def flexNoRefund : State := match instantiate instNoRefund (some Cex.group0) with | .ok s => s | .error _ => default
+def worldNoRefund : World := World.init flexNoRefund Cex.group0 token0 [] "ms" "grp" "tok" 5
+
+end Cex20
+
+example : instantiate Cex20.inst (some Cex.group0) = .ok Cex20.flex0 := rfl
+example : instantiate Cex20.instNoRefund (some Cex.group0) = .ok Cex20.flexNoRefund := rfl
+
+/-- **Non-vacuity for cw20 deposits** (`propose_cw20_tx`, `execute_cw20_tx`): the hypotheses are satisfiable — the
+configured deposit is a cw20 one, the `Propose` transaction commits and moves 5 tokens from `a` to the multisig, the
+`Execute` transaction commits and moves them back. -/
+example :
+    let w1 := run Cex.noExt 10 Cex20.world0 (Cex20.ops.take 1)
+    let w2 := run Cex.noExt 10 Cex20.world0 (Cex20.ops.take 2)
+    let w3 := run Cex.noExt 10 Cex20.world0 (Cex20.ops.take 3)
+    let w4 := run Cex.noExt 10 Cex20.world0 Cex20.ops
+    (w1.flex.cfg.deposit.map (·.cw20)) = some true ∧
+    (tx Cex.noExt 10 w1 ⟨10, 0⟩ (.flex "a" [] (.propose "t" "d" [] none))).isOk = true ∧
+    (w2.token.balances.get? "a", w2.token.balances.get? "ms") = (some 15, some 5) ∧
+    ((w3.flex.core.proposals.get? 1).map fun p => (p.status, p.deposit.map (·.cw20))) = some (.passed, some true) ∧
+    (tx Cex.noExt 10 w3 ⟨12, 0⟩ (.flex "x" [] (.execute 1))).isOk = true ∧
+    (w4.token.balances.get? "a", w4.token.balances.get? "ms") = (some 20, some 0) ∧ handled w4.log 1 = 1 := by
+  decide
+
+/-- Without the allowance the cw20 `Propose` transaction fails as a whole (the handler succeeds, the dispatched
+`TransferFrom` does not). -/
+example : (tx Cex.noExt 10 Cex20.world0 ⟨10, 0⟩ (.flex "a" [] (.propose "t" "d" [] none))).isOk = false ∧
+    (Cw3Flex.execute Cex20.world0.flex Cex20.world0.group "ms" ⟨10, 0⟩ "a" [] (.propose "t" "d" [] none)).isOk = true := by
+  decide
+
+/-- **Non-vacuity for `refund_failed_proposals = false`** (`no_refund_when_disabled`): the proposal expires stored
+`Open`, `Close` commits, returns no message, and the 5 tokens stay with the multisig. -/
+example :
+    let w := run Cex.noExt 10 Cex20.worldNoRefund (Cex20.ops.take 2)
+    ((w.flex.core.proposals.get? 1).map fun p => (p.status, p.deposit.map (·.refundFailed))) = some (.open, some false) ∧
+    ((Cw3Flex.execute w.flex w.group "ms" ⟨20, 0⟩ "x" [] (.close 1)).toOption.map (·.2)) = some [] ∧
+    ((tx Cex.noExt 10 w ⟨20, 0⟩ (.flex "x" [] (.close 1))).toOption.map fun w' =>
+      (w'.token.balances.get? "a", w'.token.balances.get? "ms")) = some (some 15, some 5) := by
+  decide
+
+/-- Non-vacuity of `execute_native_tx`: `a` proposes with the native deposit, `b` votes yes (1 + 2 ≥ 3: Passed), an
+outsider's `Execute` transaction commits and the 5ucosm are back with `a`. -/
+example :
+    let w := run Cex.noExt 10 Cex.world0
+      [⟨⟨10, 0⟩, .flex "a" [⟨5, "ucosm"⟩] (.propose "t" "d" [] none)⟩, ⟨⟨10, 0⟩, .flex "b" [] (.vote 1 .yes)⟩]
+    ((w.flex.core.proposals.get? 1).map fun p => (p.status, p.deposit.map (·.cw20))) = some (.passed, some false) ∧
+    (balance w "a" "ucosm", balance w "ms" "ucosm") = (15, 5) ∧
+    ((tx Cex.noExt 10 w ⟨11, 0⟩ (.flex "x" [] (.execute 1))).toOption.map fun w' =>
+      (balance w' "a" "ucosm", balance w' "ms" "ucosm", handled w'.log 1)) = some (20, 0, 1) := by
   decide
 
 end CwPlus.Props.C15
